@@ -57,6 +57,7 @@ type c22Machine struct {
 	snapAfterLoad, durAfterLoad bool // snapshot / restart-or-join after a load or boot
 	loadedOnce                  bool
 	invalidKinds                map[string]bool
+	restoresFailed0             string
 }
 
 const c22Heartbeat = 300 * time.Millisecond
@@ -72,7 +73,7 @@ func (m *c22Machine) leader() *Store {
 	for time.Now().Before(deadline) {
 		for _, n := range m.nodes {
 			if n.s.IsLeader() {
-				if err := n.s.Barrier(); err == nil {
+				if err := g8aBarrier(n.s, 10*time.Second); err == nil {
 					return n.s
 				}
 			}
@@ -93,6 +94,11 @@ func (m *c22Machine) settle() bool {
 	deadline := time.Now().Add(40 * time.Second)
 	for _, n := range m.nodes {
 		if !g8aWaitApplied(l, n.s, deadline) {
+			// not catching up in time is inconclusive by itself, but a snapshot
+			// restore that FAILED on a node is an event that must never happen
+			if failed := stats.Get(numRestoresFailed).String(); failed != m.restoresFailed0 {
+				m.fail("C22/node-cannot-restore-snapshot", "node %s does not catch up and snapshot restores failed (num_restores_failed %s -> %s)", n.id, m.restoresFailed0, failed)
+			}
 			m.rec.Label("inconclusive:follower-did-not-catch-up")
 			m.done = true
 			return false
@@ -453,7 +459,7 @@ func c22Case(rt *rapid.T, rec *vstat.Rec) {
 		rt.Skip("tempdir")
 	}
 	defer os.RemoveAll(base)
-	m := &c22Machine{rt: rt, rec: rec, base: base}
+	m := &c22Machine{rt: rt, rec: rec, base: base, restoresFailed0: stats.Get(numRestoresFailed).String()}
 	n1 := &c22Node{id: "n1", dir: filepath.Join(base, "node1")}
 	s, err := g8aNewStore(n1.dir, n1.id, g8aOpts{Heartbeat: c22Heartbeat, ReapThreshold: 1000})
 	if err != nil {
